@@ -615,3 +615,30 @@ func exactPMTScenario(r *rand.Rand) []HOp {
 	ops = append(ops, HOp{Kind: "tables"}, mk(0x40), HOp{Kind: "tables"}, mk(0x40))
 	return ops
 }
+
+// churnScenario: a long-running Muxer with stream churn: dozens of temporary streams on PIDs of their own come and go (none of them
+// returns), then a permanent stream is removed and added again: it must go on counting where it stopped.
+func churnScenario(r *rand.Rand) []HOp {
+	mk := func(pid uint16) HOp {
+		return HOp{Kind: "data", PID: pid, Data: &astits.MuxerData{PES: &astits.PESData{Header: &astits.PESHeader{StreamID: 0xC0, OptionalHeader: &astits.PESOptionalHeader{MarkerBits: 2}}, Data: gen.Bytes(r, 1+r.IntN(500))}}}
+	}
+	ops := []HOp{{Kind: "add", PID: 0x40, ES: &astits.PMTElementaryStream{StreamType: astits.StreamTypeH264Video}, Slot: -1},
+		{Kind: "add", PID: 0x41, ES: &astits.PMTElementaryStream{StreamType: astits.StreamTypeAACAudio}, Slot: -1}, {Kind: "pcr", PID: 0x40}, {Kind: "tables"}}
+	for q := 0; q < 1+r.IntN(5); q++ {
+		ops = append(ops, mk(0x41), mk(0x40))
+	}
+	n := 30 + r.IntN(40)
+	for k := 0; k < n; k++ {
+		pid := uint16(0x300 + k)
+		ops = append(ops, HOp{Kind: "add", PID: pid, ES: &astits.PMTElementaryStream{StreamType: astits.StreamTypePrivateData}, Slot: -1})
+		for q := 0; q < r.IntN(3); q++ {
+			ops = append(ops, mk(pid))
+		}
+		if r.IntN(4) == 0 {
+			ops = append(ops, mk(0x41))
+		}
+		ops = append(ops, HOp{Kind: "remove", PID: pid})
+	}
+	ops = append(ops, HOp{Kind: "remove", PID: 0x41}, mk(0x40), HOp{Kind: "add", PID: 0x41, ES: &astits.PMTElementaryStream{StreamType: astits.StreamTypeAACAudio}, Slot: -1}, mk(0x41), mk(0x41), HOp{Kind: "tables"})
+	return ops
+}
